@@ -132,7 +132,7 @@ def runwt(d, pid, tier="quick"):
         a = sh("git -C %s apply %s/patch.diff" % (wt, d))
         if a.returncode != 0:
             return {"status": "patch-does-not-apply"}
-        env = dict(os.environ, VERIF_REPO=wt)
+        env = dict(os.environ, VERIF_REPO=wt, VERIF_EVIDENCE_DIR=wt + "-evidence")
         r = subprocess.run("%s/check %s --tier %s" % (VERIF, pid, tier), shell=True, cwd=VERIF, env=env, stdout=subprocess.PIPE,
                            stderr=subprocess.STDOUT, timeout=7200)
         out = r.stdout.decode()
@@ -144,6 +144,7 @@ def runwt(d, pid, tier="quick"):
     finally:
         sh("git -C /repo worktree remove --force %s" % wt)
         shutil.rmtree(wt, ignore_errors=True)
+        shutil.rmtree(wt + "-evidence", ignore_errors=True)
 
 
 def matrix(extra_pairs=()):
